@@ -18,7 +18,7 @@ Record pending := { p_id : sid; p_consumer : bytes; p_time : Z; p_count : Z }.
     code: [g_by_id] (BTreeMap, sorted by id), [g_by_consumer] (HashMap name -> Vec of ids,
     in push order), the per-consumer [pending_count] of [g_consumers] and the counter
     [g_total]; [g_ncons] is the consumer_count counter, [g_min]/[g_max] the cached bounds.
-    The start id given to XGROUP CREATE is stored by the code but never read: not modelled. *)
+    The start id given to XGROUP CREATE initialises the cursor (repair 542e5a3). *)
 Record group := {
   g_last : sid;                             (* last_delivered_id *)
   g_by_id : list pending;                   (* PendingEntryList.entries_by_id *)
